@@ -1,3 +1,7 @@
 -- Root of the `Babble` library: every property file (which pulls in models and proofs).
+import Babble.Props.C01
+import Babble.Props.C02
+import Babble.Props.C03
+import Babble.Props.C04
 import Babble.Props.C18
 import Babble.Props.C19
